@@ -310,6 +310,12 @@ func cmdCheck(args []string) int {
 		t1 := time.Now()
 		ex := &Explorer{Prog: P, Harness: hs.Name, SolverName: solver, TimeoutMs: to, Workers: *workers,
 			Bounds: b, ExpectPanic: hs.ExpectPanic}
+		ex.MaxViolations = 12
+		ex.Deadline = time.Now().Add(12 * time.Minute)
+		if *tier == "thorough" {
+			ex.MaxViolations = 60
+			ex.Deadline = time.Now().Add(75 * time.Minute)
+		}
 		if solver == "z3" {
 			// portfolio: z3 first with a short budget, cvc5 for what it gives up on
 			ex.TimeoutMs = 2500
@@ -326,6 +332,10 @@ func cmdCheck(args []string) int {
 			st.Paths > st.Vacuous
 		for _, k := range ex.SortedKeys(ex.Unsupp) {
 			rep.Incomplete = append(rep.Incomplete, fmt.Sprintf("%s (x%d)", k, ex.Unsupp[k]))
+		}
+		if ex.StoppedEarly {
+			rep.Exhaustive = false
+			rep.Incomplete = append(rep.Incomplete, fmt.Sprintf("exploration stopped after %d distinct counterexamples", len(ex.Violations)))
 		}
 		if st.Paths == st.Vacuous {
 			rep.Incomplete = append(rep.Incomplete, "no non-vacuous path (vacuity guard)")
